@@ -100,7 +100,11 @@ type asyncResult struct {
 	err        error
 }
 
-const stepTimeout = 3 * time.Second
+// stepTimeout is how long a released callback may take to show up at the next gate before the schedule counts as
+// one the implementation cannot follow. It starts at 3 s; when an implementation evidently restricts the overlap of
+// callbacks (a run of infeasible schedules for one method) it drops to 250 ms for that method, which only costs
+// coverage on a loaded machine (infeasible schedules are never judged).
+var stepTimeout = 3 * time.Second
 
 func waitCh(ch chan struct{}, d time.Duration) bool {
 	select {
@@ -546,6 +550,7 @@ func cmdAsync(args []string) int {
 		st.fail(&docViolation{Property: *prop, Message: msg, Sig: check + ": " + sig, Check: check, Input: input, Seed: *seed})
 	}
 	var enforced, infeasible int64
+	infRun := map[string]int{}
 	oldProcs := runtime.GOMAXPROCS(0)
 	for _, file := range strings.Split(*in, ",") {
 		if file == "" {
@@ -567,7 +572,16 @@ func cmdAsync(args []string) int {
 						continue
 					}
 					runtime.GOMAXPROCS(procs)
+					stepTimeout = 3 * time.Second
+					if infRun[kind+modes[si]] >= 4 {
+						stepTimeout = 250 * time.Millisecond
+					}
 					res := enforce(kind, modes[si], ns[si], sched, time.Duration(*graceMs)*time.Millisecond)
+					if res.infeasible {
+						infRun[kind+modes[si]]++
+					} else if res.err == nil && stepTimeout > time.Second {
+						infRun[kind+modes[si]] = 0
+					}
 					atomic.AddInt64(&st.evals, 1)
 					if res.err != nil {
 						if strings.HasPrefix(res.err.Error(), "ORACLE") {
